@@ -44,6 +44,17 @@ MODULES = [
     (S + 'conversion/graph/beamline.py', 'gbeamline', 'scippneutron.conversion.graph.beamline'),
     (S + 'core/conversions.py', 'conversions', 'scippneutron.core.conversions'),
     (S + 'io/cif.py', 'cif', 'scippneutron.io.cif'),
+    (S + 'chopper/disk_chopper.py', 'diskchopper', 'scippneutron.chopper.disk_chopper'),
+    (S + 'chopper/filtering.py', 'filtering', 'scippneutron.chopper.filtering'),
+    (S + 'chopper/nexus_chopper.py', 'nexuschopper', 'scippneutron.chopper.nexus_chopper'),
+]
+# the exercise tie (lib/covtie.py) watches the anchored files of the property and the chopper modules (public entry
+# points of the property's "chopper" family; pinned in tools/corpus/stmt_pins/C09.json)
+COV_FILES = [
+    S + 'conversion/beamline.py', S + 'conversion/tof.py', S + 'peaks/model.py', S + 'peaks/_remove_peaks.py',
+    S + 'tof/chopper_cascade.py', S + 'absorption/cylinder.py', S + 'atoms/__init__.py', S + 'conversion/graph/tof.py',
+    S + 'conversion/graph/beamline.py', S + 'io/cif.py',
+    S + 'chopper/disk_chopper.py', S + 'chopper/filtering.py', S + 'chopper/nexus_chopper.py',
 ]
 # parameters documented as modified in place (or consumed: only fresh temporaries are passed, which the
 # theorems of the callers check through the interprocedural run)
@@ -124,6 +135,25 @@ ROOTS = [
     'cascade.propagate_times', 'cascade._chop', 'cascade.Subframe.propagate_by', 'cascade.Frame.chop', 'cascade.Frame.propagate_to',
     'cylinder.Cylinder.beam_intersection', 'cylinder.Cylinder.quadrature',
     'cif.CIF.with_reduced_powder_data', 'cif.CIF.with_powder_calibration', 'cif.CIF._assemble_authors',
+    # chopper family: '<new>' is the constructor call DiskChopper(...) (a fresh instance initialised by the dataclass
+    # __init__ and __post_init__, i.e. the validation of the caller's slit edges)
+    'diskchopper.DiskChopper.<new>', 'diskchopper.DiskChopper.from_nexus', 'diskchopper.DiskChopper.time_offset_open',
+    'diskchopper.DiskChopper.time_offset_close', 'diskchopper.DiskChopper.open_duration',
+    'diskchopper.DiskChopper.time_offset_angle_at_beam', 'diskchopper.DiskChopper.__eq__', 'diskchopper.DiskChopper.*props',
+    'filtering.find_plateaus', 'filtering.collapse_plateaus', 'filtering.filter_in_phase',
+    'nexuschopper.extract_chopper_from_nexus', 'cascade.Chopper.from_disk_chopper',
+]
+
+
+# source path prefix (under src/scippneutron/) -> the sections of tools/harness/c09_impl.py:builders whose entry points
+# reach it (used by search() to focus on the family of a broken obligation)
+SECTIONS_OF = [
+    ('chopper/', ['disk chopper and filtering']),
+    ('tof/chopper_cascade.py', ['chopper cascade', 'disk chopper and filtering']),
+    ('conversion/beamline.py', ['kernels', 'graphs / conversions']), ('conversion/tof.py', ['kernels', 'graphs / conversions']),
+    ('_utils/', ['kernels', 'graphs / conversions']),
+    ('conversion/graph/', ['graphs / conversions']), ('core/conversions.py', ['graphs / conversions']),
+    ('peaks/', ['peaks']), ('absorption/', ['absorption / atoms']), ('atoms/', ['absorption / atoms']), ('io/', ['io']),
 ]
 
 
@@ -422,7 +452,8 @@ def correspondence(ctx):
         'evaluations': len(terms),
         'distinct_nontrivial': distinct,
         'rule': 'rows: one per primitive of the aliasing table; calls: public entry points of conversion.tof/beamline, '
-                'tof.chopper_cascade, peaks, absorption, chopper, io, atoms, graph factories x (dtype, unit, layout) variants '
+                'tof.chopper_cascade, peaks, absorption, chopper (disk chopper construction / methods x slit-edge value classes, '
+                'filtering, NeXus extraction), io, atoms, graph factories x (dtype, unit, layout) variants '
                 '(non-trivial = the call returned normally; a refusal still has its arguments checked); histories: ordered '
                 'triples / pairs of factory-lookup instances with mutation of every returned handle through every path '
                 f'({"sampled 700 triples per family" if ctx.tier == "quick" else "all triples"}); distinct = distinct (label, variant) / history',
@@ -439,6 +470,19 @@ def correspondence(ctx):
         'scipp_version': res.get('scipp'),
         'conservative_rows': [d['name'] for d in descs if d['kind'] == 'row' and d['cls'] == 'maybe' and d['when_true'] is False],
         'variants': cmb,
+        'input_classes': {
+            'disk chopper slit edges': 'value classes inside-one-turn / across-tdc (negative begin) / beyond-one-turn (> 360 deg) / '
+                                       'negative / single-wide-slit / random-turn-offsets (seeded slits shifted by k*360 deg, k in -2..2) x unit deg|rad '
+                                       'x dtype float64 (internal dtype conversions are no-ops) | float32 | int64 x 1-d or 2-d edge arrays',
+            'disk chopper entry points': 'DiskChopper(...) constructor (validation of the caller\'s edges), from_nexus with interleaved slit_edges '
+                                         'and with slit_begin/slit_end, from_nexus on extract_chopper_from_nexus output, time_offset_open/close, '
+                                         'open_duration, time_offset_angle_at_beam, __eq__, n_slits, angular_frequency, is_clockwise, make_svg, '
+                                         '_repr_html_, tof.chopper_cascade.Chopper.from_disk_chopper; rotation sense and frequency ratio '
+                                         '(1, 2, 1/2 of the pulse frequency) from the seed',
+            'filtering': 'find_plateaus (float / int64 time coordinate, min_n_points int or index variable), collapse_plateaus, filter_in_phase',
+            'aligned variants': 'arguments (top-level, attributes of argument objects, items of dict / DataGroup arguments) converted to the unit / '
+                                'dtype of every traced copy=False conversion of the argument OR OF A VIEW of it (numpy.shares_memory)',
+        },
     })
 
 
@@ -506,11 +550,37 @@ def search(ctx, broken):
                     found.append(bad[0])
         except Exception as ex:      # noqa: BLE001
             ctx.note(f'history fallback could not run: {ex}')
-    # wider sweep on the implementation
-    cmb = [{'variant': v, 'layout': lay, 'seed': ctx.seed % 100000 + 5000 + k} for k in range(3) for v in VARIANTS
-           for lay in ('1d', 'scalar', '2d')]
-    res = ctx.run_impl('c09_impl.py', {'mode': 'calls', 'combos': cmb})
+    # (2a) focused sweep: the entry-point families of the harness that reach the files / functions whose obligation
+    # broke (exercise:<file>:<function> of the exercise tie, alias theorems of functions of that file), with many more
+    # seeds (slit-edge turn offsets, rotation sense, frequency ratio, value ranges depend on the seed) x every
+    # (dtype, unit, layout) variant
+    files = set()
+    for b in broken:
+        m = re.match(r'exercise:(src/scippneutron/[^:]+)', b)
+        if m:
+            files.add(m.group(1))
+    for f in names:
+        for path, key, _ in MODULES:
+            if f.startswith('F_' + key + '_'):
+                files.add(path)
+    sections = sorted({sec for f in files for pref, secs in SECTIONS_OF for sec in secs if f.startswith(S + pref)})
+    calls = []
+    if sections:
+        cmb = [{'variant': v, 'layout': lay, 'seed': ctx.seed % 100000 + 7000 + k} for k in range(8) for v in VARIANTS
+               for lay in ('1d', 'scalar', '2d')]
+        calls += ctx.run_impl('c09_impl.py', {'mode': 'calls', 'combos': cmb, 'sections': sections})['calls']
+        ctx.coverage['search_focused'] = {'files': sorted(files), 'harness_sections': sections, 'combos': len(cmb), 'calls': len(calls)}
+    if not any(c.get('changed') or c.get('repeat_equal') is False for c in calls):
+        # (2b) wider sweep on the implementation: every entry point
+        cmb = [{'variant': v, 'layout': lay, 'seed': ctx.seed % 100000 + 5000 + k} for k in range(3) for v in VARIANTS
+               for lay in ('1d', 'scalar', '2d')]
+        calls += ctx.run_impl('c09_impl.py', {'mode': 'calls', 'combos': cmb})['calls']
+    res = {'calls': calls}
+    seen = set()
     for c in res['calls']:
+        if not (c.get('changed') or c.get('repeat_equal') is False) or c['label'] in seen:
+            continue              # one replay per entry point
+        seen.add(c['label'])
         if c.get('changed'):
             ctx.violation(f'arg-modified:{c["label"]}', f'{c["label"]} modified an argument (first difference at {c["changed"]}) '
                           f'with {c["combo"]}', {'call': c['label'], 'combo': c['combo'], 'changed': c['changed']})
@@ -563,6 +633,11 @@ TRUSTED = [
     'coq/C09/Handles.v: state machine of module tables / cache entries / stored variables; the descriptors come from decorators and '
     'dataclass declarations read by the translator plus Alias.ret_*_fresh of the regenerated bodies; functools.lru_cache is modelled as '
     '"returns the stored object" and is not verified',
+    'constructor calls (root <new>): the new instance is an allocation site, so stores into ITS attributes (dataclass __init__, '
+    'object.__setattr__ in __post_init__ of a frozen dataclass) are not argument writes; x.copy(deep=False) is a new object with the same data '
+    'buffer and its own coords / masks dicts holding the same variables (validated by a harness row); enumeration classes defined '
+    'conditionally at module level (try/except ImportError) are immutable values, calling one only reads its arguments; '
+    'DiskChopper.make_svg (chopper/_svg.py uses nested function definitions) is outside the alias language: covered by the snapshot harness only',
     'tools/harness/c09_impl.py: deep snapshots (values, variances, unit, dtype, dims, coords, masks, container identity structure), '
     'argument generators, reset of lru caches / module tables between histories',
 ]
@@ -573,7 +648,8 @@ ASSUMPTIONS = [
     'on units/dtypes of the caller is made',
 ]
 LEVEL_TEXT = (f'Proof: (a) for every analysed function ({len(theorem_functions())} functions regenerated from beamline.py, tof.py, model.py, _remove_peaks.py, '
-              '_fit_peaks.py, chopper_cascade.py, cylinder.py, atoms, graph factories, cif.py on this run) and for EVERY assignment of '
+              '_fit_peaks.py, chopper_cascade.py, cylinder.py, atoms, graph factories, cif.py, chopper/disk_chopper.py (the constructor call '
+              'DiskChopper(...) with its edge validation included), chopper/filtering.py, chopper/nexus_chopper.py on this run) and for EVERY assignment of '
               '"returns its argument" to the MaybeAlias sites (finite enumeration by vm_compute, lifted by Alias.check_sound) the symbolic '
               'run writes no object reachable from a parameter and no module-level object; (b) for every history of factory / combinator '
               '/ lookup calls interleaved with mutations of returned objects (induction over the list) every result equals the pristine '
